@@ -264,6 +264,49 @@ Definition wpd (p : vec -> vec -> A) (C : mat) (X1 X2 : list vec) : A :=
 Definition wsumk {X : Type} (k : X -> X -> A) (C : mat) (X1 X2 : list X) : A :=
   lsum (map (fun xc => lsum (map (fun cz => mul (fst cz) (k (fst xc) (snd cz))) (combine (snd xc) X2))) (combine X1 C)).
 
+(* ---------------- coded derivatives, second part: parameter VECTORS and the composed kernels ----------------
+   pv_* : gradient of k(x,z) with respect to the kernel's whole parameter vector (in the order of parameterVector()),
+   per pair of points; weightedParameterDerivative = wpdv = sum_ij c_ij * pv(x_i, z_j). *)
+Definition p_one (p : vec -> vec -> A) : vec -> vec -> vec := fun x z => [p x z].
+Definition p_none : vec -> vec -> vec := fun _ _ => [].
+(* ARDKernelUnconstrained: gradient -= coeff * kxy * gammas * sqr(x - z)   (parameters log gamma_i) *)
+Definition p_ard (gs : vec) : vec -> vec -> vec := fun x z =>
+  vscale (opp (k_ard gs x z)) (zipw mul gs (zipw (fun a b => mul (sub a b) (sub a b)) x z)).
+(* NormalizedKernel::weightedInputDerivative: weights = c / sqrt(kxx*kyy); base gradient with these weights;
+   row i -= (sum_j weights_ij * kxy_ij / kxx_i) * base gradient of k(x_i,x_i) w.r.t. its first argument *)
+Definition g_norm (k : vec -> vec -> A) (g : vec -> vec -> vec) : vec -> vec -> vec := fun x z =>
+  let w := div one (sqrtA (mul (k x x) (k z z))) in
+  vadd (vscale w (g x z)) (vscale (opp (div (mul w (k x z)) (k x x))) (g x x)).
+(* NormalizedKernel::weightedParameterDerivative: same weights; minus wx_i = sum_j weights*kxy/(2 kxx_i) times the base
+   parameter gradient at (x_i,x_i), minus wy_j = sum_i weights*kxy/(2 kyy_j) times the one at (z_j,z_j) *)
+Definition p_norm (k : vec -> vec -> A) (p : vec -> vec -> vec) : vec -> vec -> vec := fun x z =>
+  let w := div one (sqrtA (mul (k x x) (k z z))) in
+  vadd (vadd (vscale w (p x z))
+             (vscale (opp (div (mul w (k x z)) (mul two (k x x)))) (p x x)))
+       (vscale (opp (div (mul w (k x z)) (mul two (k z z)))) (p z z)).
+(* WeightedSumKernel::weightedParameterDerivative (all sub-kernels adaptive): for the log-weights of kernels 2..n
+   weight_i * (k_i * weightsum - numerator) / weightsum^2 (numerator = s.result = sum_j weight_j k_j), then the
+   sub-kernels' parameter gradients scaled by weight_i / weightsum, stacked in order *)
+Definition p_wsum (wkps : list (A * ((vec -> vec -> A) * (vec -> vec -> vec)))) : vec -> vec -> vec := fun x z =>
+  let W := lsum (map fst wkps) in
+  let N := lsum (map (fun t => mul (fst t) (fst (snd t) x z)) wkps) in
+  map (fun t => div (mul (fst t) (sub (mul (fst (snd t) x z) W) N)) (mul W W)) (tl wkps)
+  ++ concat (map (fun t => vscale (div (fst t) W) (snd (snd t) x z)) wkps).
+(* SubrangeKernelWrapper::weightedParameterDerivative: the inner kernel's on the column sub-ranges *)
+Definition v_pull {X Y : Type} (f : X -> Y) (p : Y -> Y -> vec) : X -> X -> vec := fun x z => p (f x) (f z).
+Definition p_sub (a b : nat) (p : vec -> vec -> vec) : vec -> vec -> vec := v_pull (subvec a b) p.
+(* LinearModel::weightedParameterDerivative for one pattern x and one coefficient row delta:
+   trans(delta) % x written row by row, then (offset) delta *)
+Definition lm_pgrad (delta x : vec) : vec := concat (map (fun d => vscale d x) delta) ++ delta.
+(* ModelKernel::weightedParameterDerivative with a LinearModel x |-> W x + b:
+   kernel parameters | model gradient at x with the kernel's input gradient at (f x, f z) + the same at z with (f z, f x) *)
+Definition p_model (W : mat) (b : vec) (g p : vec -> vec -> vec) : vec -> vec -> vec := fun x z =>
+  let fx := linmap W b x in let fz := linmap W b z in
+  p fx fz ++ vadd (lm_pgrad (g fx fz) x) (lm_pgrad (g fz fx) z).
+(* weightedParameterDerivative of a kernel with m parameters: sum_ij c_ij * pv(x_i,z_j) *)
+Definition wpdv (m : nat) (p : vec -> vec -> vec) (C : mat) (X1 X2 : list vec) : vec :=
+  vsum m (map (fun xc => vsum m (map (fun cz => vscale (fst cz) (p (fst xc) (snd cz))) (combine (snd xc) X2))) (combine X1 C)).
+
 End Model.
 
 (* the dataset of C03 is a list of batches; its element list is C03Model.elems *)
